@@ -107,10 +107,15 @@ Definition uniquify (fuel : nat) (x : xstate) (n : id) : XR :=
 (* ---- flatten ---- *)
 Definition is_cable (s : state) (e : id) : bool := is_kind s e KCable.
 
-(* flatten._bring_to_top. [add_to_name] is the Python value handed in: Some [] for "", None when the
-   enclosing instance has no name (then [add_to_name + "/"] raises TypeError, after the element has
-   been taken out of its parent); with "" the statement is [e.name = e.name], which for an unnamed
-   element is the no-op [e.name = None] *)
+(* flatten._name_in_path: the name of e as a component of a hierarchical name; a missing name counts
+   as the empty string *)
+Definition name_in_path (s : state) (e : id) : str :=
+  match get_str s e str_NAME with Some nm => nm | None => [] end.
+
+(* flatten._bring_to_top. [add_to_name] is the Python value handed in: None for an element of the top
+   definition itself (the statement is then [e.name = e.name], which for an unnamed element is the
+   no-op [e.name = None]), Some a for the hierarchical name a of the enclosing instance - which may be
+   "" - and then the statement is [e.name = add_to_name + "/" + _name_in_path(e)] *)
 Definition bring_to_top (x : xstate) (e : id) (add_to_name : option str) (topd : id) : XR :=
   let s := st x in
   let cable := is_cable s e in
@@ -129,18 +134,13 @@ Definition bring_to_top (x : xstate) (e : id) (add_to_name : option str) (topd :
       | Some d =>
           liftR x2 (op_remove (st x2) r d e) (fun x3 =>
           let cur := get_str (st x3) e str_NAME in
-          let newname : option (option str) :=
+          let newname : option str :=
             match add_to_name with
-            | None => None
-            | Some [] => Some cur
-            | Some a => match cur with Some nm => Some (Some (a ++ str_slash ++ nm)) | None => None end
+            | None => cur
+            | Some a => Some (a ++ str_slash ++ name_in_path (st x3) e)
             end in
-          match newname with
-          | None => (x3, Some XAttr)
-          | Some nn =>
-              liftR x3 (op_set_name (st x3) e nn) (fun x4 =>
-              liftR x4 (op_add (st x4) r topd e None) (fun x5 => (x5, None)))
-          end)
+          liftR x3 (op_set_name (st x3) e newname) (fun x4 =>
+          liftR x4 (op_add (st x4) r topd e None) (fun x5 => (x5, None))))
       end
   end.
 
@@ -202,8 +202,8 @@ Fixpoint flat_loop (fuel : nat) (x : xstate) (topd : id) (queue : list (id * opt
               | Some d =>
                   if is_leaf_def (st x1) d then flat_loop f x1 topd rest to_remove
                   else
-                    (* name_queue.append(inst.name): None for an unnamed instance *)
-                    let iname := get_str (st x1) inst str_NAME in
+                    (* name_queue.append(_name_in_path(inst)) *)
+                    let iname := Some (name_in_path (st x1) inst) in
                     let queue' := rest ++ map (fun c => (c, iname)) (kids (st x1) RChildren d) in
                     match xfold (fun x c => bring_to_top x c iname topd) (kids (st x1) RCables d) x1 with
                     | (x2, Some e) => ((x2, Some e), to_remove)
@@ -226,7 +226,7 @@ Definition flatten (fuel : nat) (x : xstate) (n : id) : XR :=
       match iref (st x) t with
       | None => (x, Some XAttr)
       | Some topd =>
-          let queue := map (fun c => (c, Some [])) (kids (st x) RChildren topd) in
+          let queue := map (fun c => (c, None)) (kids (st x) RChildren topd) in
           match flat_loop fuel x topd queue [] with
           | ((x1, Some e), _) => (x1, Some e)
           | ((x1, None), to_remove) =>
